@@ -12,7 +12,17 @@ package main
 //   * times are compared as instants (UTC, monotonic reading stripped);
 //   * a zero-valued field with a `default:` tag or auto-time tag may be replaced by gorm: then only
 //     loaded == in-memory-after-Create is demanded (plus == NowFunc for auto-time);
-//   * map reads are compared on the stored representation (bool as 0/1, integral REAL == INTEGER).
+//   * map reads are compared on the stored representation (bool as 0/1, integral REAL == INTEGER);
+//   * a nil pointer to a self-serializing / Scanner struct type equals a pointer to its zero value;
+//   * map keys of Create-from-map are column names on schemas with crossing names (a key that is both a column and
+//     another field's Go name means the column);
+//   * Pluck is asked only for non-pointer plain kinds (it scans into a bare *T, NULL is not representable there);
+//     maps read through the model only for schemas of plainly stored kinds.
+// SCHEMA NAMING STYLES: plain (F<i>/f<i>, renamed columns) | cycle | chain | cycle+emb — in the cross styles the column
+// of one field is the Go name of another field (or of an embedded member), see c03GenSchema.
+// READ PATHS (every one pushes several rows through the same scan code; all copies are judged after ALL loads, then
+// one copy is overwritten and the others must not change): Find(&[]T), Find(&[]*T), Find(&[]map), Model.Find(&[]map),
+// Rows+ScanRows, FindInBatches, Find(&[]Small), Pluck, First, Take, Take(&map); Joins in c03_joins.go.
 // EXCLUDED from generation (not representable in SQLite/go-sqlite3 or ill-formed): uint64 >= 2^63, NaN, -0.0
 // (SQLite hands it back as 0.0), defined bool types without Scanner (database/sql cannot scan SQLite's integer
 // into them), NUL bytes and invalid UTF-8 in strings, times outside years 1..9999, empty-but-non-nil slices/maps inside
@@ -343,6 +353,122 @@ func c03Atoms() []c03Atom {
 		}},
 		c03Atom{Name: "gob:struct", Typ: docT, Tag: "serializer:gob", NoMap: true, Gen: func(r *rand.Rand) reflect.Value { return rv(genDoc(r, true, 1)) }},
 	)
+	// self-serializing types and Scanners with INCREMENTAL Scan (fill the receiver, ignore NULL): right only when every
+	// row is scanned into a fresh receiver
+	genSelfDoc := func(r *rand.Rand) CSelfDoc {
+		d := CSelfDoc{}
+		if r.Intn(2) == 0 {
+			d.Theme = genS(r)
+		}
+		if r.Intn(2) == 0 {
+			d.Tags = make([]string, 1+r.Intn(4))
+			for i := range d.Tags {
+				d.Tags[i] = fmt.Sprintf("t%d-%s", r.Intn(100), genS(r))
+			}
+		}
+		if r.Intn(2) == 0 {
+			d.Level = 1 + r.Intn(9)
+		}
+		if r.Intn(3) == 0 {
+			d.Attr = map[string]int{fmt.Sprint("k", r.Intn(3)): 1 + r.Intn(50)}
+		}
+		if r.Intn(3) == 0 {
+			d.Sub = &CSelfSub{A: r.Intn(4), L: []string{"s", genS(r)}[:1+r.Intn(2)]}
+		}
+		return d
+	}
+	genSelfList := func(r *rand.Rand) CSelfList {
+		switch r.Intn(4) {
+		case 0:
+			return nil
+		case 1:
+			return CSelfList{}
+		}
+		l := make(CSelfList, 1+r.Intn(5))
+		for i := range l {
+			l[i] = fmt.Sprintf("e%d-%s", r.Intn(100), genS(r))
+		}
+		return l
+	}
+	genSparse := func(r *rand.Rand) CSparse {
+		s := CSparse{}
+		if r.Intn(2) == 0 {
+			n := r.Intn(100) - 50
+			s.A = &n
+		}
+		if r.Intn(2) == 0 {
+			s.B = genS(r)
+		}
+		if r.Intn(2) == 0 {
+			s.L = make([]string, 1+r.Intn(3))
+			for i := range s.L {
+				s.L[i] = fmt.Sprint("l", r.Intn(1000))
+			}
+		}
+		return s
+	}
+	nilIsZero := func(t reflect.Type) func(v reflect.Value) string {
+		return func(v reflect.Value) string {
+			if v.IsNil() {
+				return c03Canon(reflect.Zero(t))
+			}
+			return c03Canon(v.Elem())
+		}
+	}
+	as = append(as,
+		c03Atom{Name: "self:doc", Typ: reflect.TypeOf(CSelfDoc{}), NoMap: true, Gen: func(r *rand.Rand) reflect.Value { return rv(genSelfDoc(r)) }},
+		// LATITUDE: a nil pointer to a self-serializing type is stored as NULL and read back as a pointer to the zero value
+		c03Atom{Name: "self:*doc", Typ: reflect.TypeOf((*CSelfDoc)(nil)), NoMap: true, Canon: nilIsZero(reflect.TypeOf(CSelfDoc{})), Gen: func(r *rand.Rand) reflect.Value {
+			if r.Intn(4) == 0 {
+				return rv((*CSelfDoc)(nil))
+			}
+			d := genSelfDoc(r)
+			return rv(&d)
+		}},
+		c03Atom{Name: "self:list", Typ: reflect.TypeOf(CSelfList(nil)), NoMap: true, Gen: func(r *rand.Rand) reflect.Value { return rv(genSelfList(r)) }},
+		c03Atom{Name: "self:count", Typ: reflect.TypeOf(CSelfCount{}), Tag: "type:integer", NoMap: true, Gen: func(r *rand.Rand) reflect.Value { return rv(CSelfCount{N: int64(r.Intn(7)) * int64(r.Intn(1000))}) }},
+		c03Atom{Name: "CSparse", Typ: reflect.TypeOf(CSparse{}), Tag: "type:text", NoMap: true, Gen: func(r *rand.Rand) reflect.Value { return rv(genSparse(r)) }},
+		c03Atom{Name: "*CSparse", Typ: reflect.TypeOf((*CSparse)(nil)), Tag: "type:text", NoMap: true, Canon: nilIsZero(reflect.TypeOf(CSparse{})), Gen: func(r *rand.Rand) reflect.Value {
+			if r.Intn(3) == 0 {
+				return rv((*CSparse)(nil))
+			}
+			s := genSparse(r)
+			return rv(&s)
+		}},
+		c03Atom{Name: "CAccum", Typ: reflect.TypeOf(CAccum{}), Tag: "type:integer", NoMap: true, Gen: func(r *rand.Rand) reflect.Value {
+			if r.Intn(3) == 0 {
+				return rv(CAccum{})
+			}
+			return rv(CAccum{Hist: []int64{int64(r.Intn(1000))}})
+		}},
+		c03Atom{Name: "json:sparse", Typ: reflect.TypeOf(SerSparse{}), Tag: "serializer:json", NoMap: true, Gen: func(r *rand.Rand) reflect.Value {
+			d := SerSparse{}
+			if r.Intn(2) == 0 {
+				d.K = genS(r)
+			}
+			if r.Intn(2) == 0 {
+				n := r.Intn(9)
+				d.N = &n
+			}
+			if r.Intn(2) == 0 {
+				d.L = []int{1, 2, 3, 4}[:1+r.Intn(4)]
+			}
+			if r.Intn(3) == 0 {
+				d.M = map[string]int{"x": r.Intn(5)}
+			}
+			return rv(d)
+		}},
+		c03Atom{Name: "json:[]int", Typ: reflect.TypeOf([]int(nil)), Tag: "serializer:json", NoMap: true, Gen: func(r *rand.Rand) reflect.Value {
+			if r.Intn(4) == 0 {
+				return rv([]int(nil))
+			}
+			l := make([]int, r.Intn(6))
+			for i := range l {
+				l[i] = r.Intn(1000)
+			}
+			return rv(l)
+		}},
+	)
 	// embedded structs
 	embA, embB := reflect.TypeOf(EmbA{}), reflect.TypeOf(EmbB{})
 	genA := func(r *rand.Rand) reflect.Value { return rv(EmbA{EA: int16(genI(r, math.MinInt16, math.MaxInt16)), EB: genS(r)}) }
@@ -511,9 +637,15 @@ type c03Schema struct {
 	Fields  []c03Field
 	Typ     reflect.Type
 	Desc    string
+	Naming  string // plain | cycle | chain | cycle+emb
 }
 
 var c03PKStyles = []string{"auto-uint", "auto-int64", "string", "composite", "manual-int", "auto-uint"}
+
+// Go field names used by the "cross" naming styles: the COLUMN of one field is the GO NAME of another one
+// (legacy PascalCase tables), so that Schema.FieldsByName and Schema.FieldsByDBName share keys that designate
+// different fields.  Column names must stay distinct case-insensitively (SQLite).
+var c03CrossNames = []string{"Name", "Title", "DisplayName", "LegacyName", "Code", "Label", "Value", "Owner", "Status", "Kind"}
 
 func c03GenSchema(seed int64, atoms []c03Atom) *c03Schema {
 	rng := rand.New(rand.NewSource(seed))
@@ -537,7 +669,7 @@ func c03GenSchema(seed int64, atoms []c03Atom) *c03Schema {
 	case "auto-int64":
 		add(c03Field{Atom: atomBy("int64"), GoName: "Key", Column: "the_key", Tag: "primaryKey;column:the_key", PK: true, AutoPK: true})
 	case "string":
-		add(c03Field{Atom: atomBy("string"), GoName: "Code", Column: "code", Tag: "primaryKey", PK: true})
+		add(c03Field{Atom: atomBy("string"), GoName: "Code0", Column: "code0", Tag: "primaryKey", PK: true})
 	case "composite":
 		add(c03Field{Atom: atomBy("string"), GoName: "K1", Column: "k1", Tag: "primaryKey", PK: true})
 		add(c03Field{Atom: atomBy("int32"), GoName: "K2", Column: "k2", Tag: "primaryKey;autoIncrement:false", PK: true})
@@ -547,6 +679,25 @@ func c03GenSchema(seed int64, atoms []c03Atom) *c03Schema {
 	add(c03Field{Atom: atomBy("string"), GoName: "Payload", Column: "payload", Tag: "column:payload"})
 	n := 3 + rng.Intn(6)
 	used := map[string]bool{}
+	// one schema in four is built from plainly stored kinds only (no serializer / custom / embedded members, no default or
+	// auto-time tags): those are the schemas the map paths (Create from maps, maps read through the model) apply to
+	plainOnly := rng.Intn(4) == 0
+	if plainOnly {
+		var pa []c03Atom
+		for _, a := range atoms {
+			if !a.NoMap && !strings.Contains(a.Tag, "embedded") {
+				a.Opt = nil
+				pa = append(pa, a)
+			}
+		}
+		atoms = pa
+	}
+	type pend struct {
+		f      c03Field
+		tags   []string
+		colTag bool
+	}
+	var ps []pend
 	for i := 0; i < n; i++ {
 		a := atoms[rng.Intn(len(atoms))]
 		if strings.Contains(a.Tag, "embedded") {
@@ -557,6 +708,7 @@ func c03GenSchema(seed int64, atoms []c03Atom) *c03Schema {
 		}
 		f := c03Field{Atom: a, GoName: fmt.Sprintf("F%d", i), Column: fmt.Sprintf("f%d", i)}
 		tags := []string{}
+		colTag := false
 		if a.Tag != "" {
 			tags = append(tags, a.Tag)
 		}
@@ -567,7 +719,7 @@ func c03GenSchema(seed int64, atoms []c03Atom) *c03Schema {
 			if rng.Intn(2) == 0 {
 				f.Column = fmt.Sprintf("c%d_renamed", i)
 			}
-			tags = append(tags, "column:"+f.Column)
+			colTag = true
 		}
 		if len(a.Opt) > 0 && rng.Intn(3) == 0 {
 			o := a.Opt[rng.Intn(len(a.Opt))]
@@ -592,16 +744,85 @@ func c03GenSchema(seed int64, atoms []c03Atom) *c03Schema {
 				f.Atom.Gen = func(r *rand.Rand) reflect.Value { return rv(r.Int63n(4e9)) }
 			}
 		}
-		f.Tag = strings.Join(tags, ";")
-		add(f)
+		ps = append(ps, pend{f, tags, colTag})
+	}
+	// ---- naming style ----
+	// plain:  Go names F<i>, columns f<i> / explicitly renamed (never equal to a Go name)
+	// cycle:  the column-backed fields get realistic Go names and the column of field j is the Go name of field j+1
+	//         (cyclically): every column name is some OTHER field's Go name
+	// chain:  the same with one link broken (the last field keeps a snake_case column)
+	// In both cross styles a field may instead take the Go name of a member of an embedded struct as its column, and
+	// an embedded struct with an upper-case prefix produces columns that equal top-level Go names.
+	s.Naming = []string{"plain", "plain", "cycle", "chain", "cycle"}[rng.Intn(5)]
+	if s.Naming != "plain" {
+		var idx []int
+		for i := range ps {
+			if ps[i].f.Column != "" {
+				idx = append(idx, i)
+			}
+		}
+		perm := rng.Perm(len(c03CrossNames))
+		if len(idx) > len(perm) {
+			idx = idx[:len(perm)]
+		}
+		if len(idx) < 2 {
+			s.Naming = "plain"
+		} else {
+			for j, i := range idx {
+				ps[i].f.GoName = c03CrossNames[perm[j]]
+			}
+			for j, i := range idx {
+				ps[i].f.Column = ps[idx[(j+1)%len(idx)]].f.GoName
+				ps[i].colTag = true
+			}
+			if s.Naming == "chain" {
+				last := idx[len(idx)-1]
+				ps[last].f.Column = fmt.Sprintf("c%d_renamed", last)
+			}
+			// column = Go name of an embedded member (only where the embedded columns carry a lower-case prefix)
+			if used["embedded+prefix"] && rng.Intn(2) == 0 {
+				ps[idx[0]].f.Column = []string{"X", "Y"}[rng.Intn(2)]
+				if s.Naming == "cycle" { // idx[1]'s Go name is no longer anybody's column: still a cross through idx[0]
+					s.Naming = "cycle+emb"
+				}
+			} else if used["*embedded+prefix"] && !used["embedded"] && rng.Intn(2) == 0 {
+				ps[idx[0]].f.Column = []string{"EA", "EB"}[rng.Intn(2)]
+			}
+			if rng.Intn(3) == 0 {
+				// embedded struct whose prefixed columns ("Pxea", "Pxeb") equal the Go name of a top-level field
+				ps = append(ps, pend{f: c03Field{Atom: c03Atom{Name: "embedded+Prefix", Typ: reflect.TypeOf(EmbC{}), NoMap: true,
+					Gen: func(r *rand.Rand) reflect.Value { return rv(EmbC{Ea: int32(r.Intn(1000)), Eb: genS(r)}) }}, GoName: "Emb"}, tags: []string{"embedded;embeddedPrefix:Px"}})
+				ps = append(ps, pend{f: c03Field{Atom: atomBy("string"), GoName: []string{"Pxea", "Pxeb"}[rng.Intn(2)], Column: "px_other"}, colTag: true})
+			}
+		}
+	}
+	for _, p := range ps {
+		if p.colTag {
+			p.tags = append(p.tags, "column:"+p.f.Column)
+		}
+		p.f.Tag = strings.Join(p.tags, ";")
+		add(p.f)
 	}
 	s.Typ = reflect.StructOf(sf)
-	parts := []string{s.PKStyle}
+	parts := []string{s.PKStyle, "naming=" + s.Naming}
 	for _, f := range s.Fields[1:] {
-		parts = append(parts, f.Atom.Name+"{"+f.Tag+"}")
+		parts = append(parts, f.GoName+":"+f.Atom.Name+"{"+f.Tag+"}")
 	}
 	s.Desc = strings.Join(parts, " ")
 	return s
+}
+
+// smallType = a "smaller struct" destination: Payload plus a random subset of the other fields (same names, tags)
+func (s *c03Schema) smallType(rng *rand.Rand) (reflect.Type, []int) {
+	var sf []reflect.StructField
+	var idx []int
+	for fi, f := range s.Fields {
+		if f.GoName == "Payload" || rng.Intn(2) == 0 {
+			sf = append(sf, reflect.StructField{Name: f.GoName, Type: f.Atom.Typ, Tag: reflect.StructTag(`gorm:"` + f.Tag + `"`)})
+			idx = append(idx, fi)
+		}
+	}
+	return reflect.StructOf(sf), idx
 }
 
 // genRecords builds n records (deterministic in seed): slice value of type []T
@@ -617,7 +838,7 @@ func (s *c03Schema) genRecords(seed int64, n int) reflect.Value {
 				fv.SetString(fmt.Sprintf("p%d-%d", seed%1000, i))
 			case f.PK && f.AutoPK:
 				// zero: generated by the database
-			case f.PK && f.Atom.Name == "string":
+			case f.PK && f.Atom.Name == "string" && f.GoName != "Payload":
 				fv.SetString(fmt.Sprintf("k%d/%s", i, c03UniStrings[1+rng.Intn(10)]))
 			case f.PK:
 				fv.SetInt(int64(1000 + i*7))
@@ -700,8 +921,8 @@ func c03RunE2E(r *Result, in c03E2EInput) (bad []string) {
 					continue
 				}
 				key := f.Column
-				if (i+fi)%2 == 0 {
-					key = f.GoName // field names are accepted as well as column names
+				if (i+fi)%2 == 0 && s.Naming == "plain" {
+					key = f.GoName // field names are accepted as well as column names (crossing schemas: a key that is a column name means that column)
 				}
 				m[key] = orig.Index(i).Field(fi).Interface()
 			}
@@ -725,9 +946,24 @@ func c03RunE2E(r *Result, in c03E2EInput) (bad []string) {
 		return append(bad, "Create: "+err.Error())
 	}
 
-	// ---- read back ----
-	fresh := func() reflect.Value { return reflect.New(s.Typ) }
-	loadedBy := map[string][]reflect.Value{} // payload -> loaded copies (Find, First, Take)
+	// ---- read back: ALL loads first (every path pushes several rows through the same scan code), judged afterwards ----
+	model := reflect.New(s.Typ).Interface()
+	payIdx := -1
+	for fi, f := range s.Fields {
+		if f.GoName == "Payload" {
+			payIdx = fi
+		}
+	}
+	type copyT struct {
+		how string
+		v   reflect.Value // struct of type s.Typ (or the small type, then idx != nil)
+		idx []int         // small struct: schema field index of every struct field
+	}
+	loadedBy := map[string][]copyT{}
+	push := func(how string, v reflect.Value) {
+		p := v.Field(payIdx).String()
+		loadedBy[p] = append(loadedBy[p], copyT{how: how, v: v})
+	}
 	all := reflect.New(reflect.SliceOf(s.Typ))
 	if e := db.Table(tbl).Order("payload").Find(all.Interface()).Error; e != nil {
 		return []string{"Find: " + e.Error()}
@@ -735,23 +971,15 @@ func c03RunE2E(r *Result, in c03E2EInput) (bad []string) {
 	if all.Elem().Len() != in.N {
 		bad = append(bad, fmt.Sprintf("Find returned %d rows, created %d", all.Elem().Len(), in.N))
 	}
-	payIdx := -1
-	for fi, f := range s.Fields {
-		if f.GoName == "Payload" {
-			payIdx = fi
-		}
-	}
 	for i := 0; i < all.Elem().Len(); i++ {
-		p := all.Elem().Index(i).Field(payIdx).String()
-		loadedBy[p] = append(loadedBy[p], all.Elem().Index(i))
+		push("Find(&[]T)", all.Elem().Index(i))
 	}
 	allPtr := reflect.New(reflect.SliceOf(reflect.PointerTo(s.Typ)))
 	if e := db.Table(tbl).Find(allPtr.Interface()).Error; e != nil {
 		return []string{"Find(ptrs): " + e.Error()}
 	}
 	for i := 0; i < allPtr.Elem().Len(); i++ {
-		p := allPtr.Elem().Index(i).Elem().Field(payIdx).String()
-		loadedBy[p] = append(loadedBy[p], allPtr.Elem().Index(i).Elem())
+		push("Find(&[]*T)", allPtr.Elem().Index(i).Elem())
 	}
 	var mapRows []map[string]interface{}
 	if e := db.Table(tbl).Find(&mapRows).Error; e != nil {
@@ -762,18 +990,116 @@ func c03RunE2E(r *Result, in c03E2EInput) (bad []string) {
 		p := fmt.Sprint(m["payload"])
 		mapBy[p] = append(mapBy[p], m)
 	}
-	seenPK := map[string]bool{}
+	// maps through the model (prepareValues resolves every column to a field of the schema)
+	// (only for schemas of plainly stored kinds: gorm prepares a **FieldType holder per column, which database/sql cannot
+	// fill for serializer / embedded / struct-valued fields)
+	var mapRows2 []map[string]interface{}
+	modelMaps := 0
+	if c03AllPlain(s) {
+		modelMaps = 1
+		if e := db.Table(tbl).Model(model).Find(&mapRows2).Error; e != nil {
+			return []string{"Model.Find(maps): " + e.Error()}
+		}
+	}
+	mapModelBy := map[string][]map[string]interface{}{}
+	for _, m := range mapRows2 {
+		p := fmt.Sprint(m["payload"])
+		mapModelBy[p] = append(mapModelBy[p], m)
+	}
+	// Rows + ScanRows, one fresh destination per row
+	wantCopies := 4
+	prng := rand.New(rand.NewSource(in.RecSeed ^ 0x5ca1ab1e))
+	if rows, e := db.Table(tbl).Model(model).Order("payload DESC").Rows(); e != nil {
+		bad = append(bad, "Rows: "+e.Error())
+	} else {
+		for rows.Next() {
+			d := reflect.New(s.Typ)
+			if e := db.Table(tbl).ScanRows(rows, d.Interface()); e != nil {
+				bad = append(bad, "ScanRows: "+e.Error())
+				break
+			}
+			push("ScanRows", d.Elem())
+		}
+		rows.Close()
+		wantCopies++
+	}
+	// FindInBatches
+	{
+		dest := reflect.New(reflect.SliceOf(s.Typ))
+		bs := 1 + prng.Intn(3)
+		fn := func(tx *gorm.DB, batch int) error {
+			for i := 0; i < dest.Elem().Len(); i++ {
+				c := reflect.New(s.Typ).Elem()
+				c.Set(dest.Elem().Index(i))
+				push(fmt.Sprintf("FindInBatches(%d)", bs), c)
+			}
+			return nil
+		}
+		if c03HasSinglePK(s) {
+			if e := db.Table(tbl).Model(model).FindInBatches(dest.Interface(), bs, fn).Error; e != nil {
+				bad = append(bad, "FindInBatches: "+e.Error())
+			}
+			wantCopies++
+		}
+	}
+	// smaller struct destination (subset of the fields, same names and tags)
+	{
+		st, idx := s.smallType(prng)
+		smalls := reflect.New(reflect.SliceOf(st))
+		if e := db.Table(tbl).Model(model).Order("payload").Find(smalls.Interface()).Error; e != nil {
+			bad = append(bad, "Find(smaller struct): "+e.Error())
+		} else {
+			sp := -1
+			for j, fi := range idx {
+				if fi == payIdx {
+					sp = j
+				}
+			}
+			for i := 0; i < smalls.Elem().Len(); i++ {
+				v := smalls.Elem().Index(i)
+				p := v.Field(sp).String()
+				loadedBy[p] = append(loadedBy[p], copyT{how: "Find(&[]Small)", v: v, idx: idx})
+			}
+			wantCopies++
+		}
+	}
+	// Pluck of every plainly stored column, in payload order
+	plucked := map[int]reflect.Value{}
+	for fi, f := range s.Fields {
+		if f.Atom.NoMap || f.Column == "" || strings.Contains(f.Column, " ") || !c03Pluckable(f.Atom.Typ) {
+			continue
+		}
+		dest := reflect.New(reflect.SliceOf(f.Atom.Typ))
+		if e := db.Table(tbl).Model(model).Order("payload").Pluck(f.Column, dest.Interface()).Error; e != nil {
+			bad = append(bad, fmt.Sprintf("Pluck(%q): %v", f.Column, e))
+			continue
+		}
+		plucked[fi] = dest.Elem()
+	}
+	order := make([]int, in.N) // record index by payload order
+	for i := range order {
+		order[i] = i
+	}
+	sort.Slice(order, func(a, b int) bool {
+		return orig.Index(order[a]).Field(payIdx).String() < orig.Index(order[b]).Field(payIdx).String()
+	})
+	rank := make([]int, in.N)
+	for r0, i := range order {
+		rank[i] = r0
+	}
+	// consecutive First / Take calls
 	for i := 0; i < in.N; i++ {
-		o := orig.Index(i)
-		pay := o.Field(payIdx).String()
-		f1, f2 := fresh(), fresh()
+		pay := orig.Index(i).Field(payIdx).String()
+		f1, f2 := reflect.New(s.Typ), reflect.New(s.Typ)
 		if e := db.Table(tbl).First(f1.Interface(), "payload = ?", pay).Error; e != nil {
 			bad = append(bad, fmt.Sprintf("rec %d First: %v", i, e))
-			continue
+		} else {
+			push("First", f1.Elem())
 		}
 		if e := db.Table(tbl).Where("payload = ?", pay).Take(f2.Interface()).Error; e != nil {
 			bad = append(bad, fmt.Sprintf("rec %d Take: %v", i, e))
-			continue
+		} else {
+			push("Take", f2.Elem())
 		}
 		one := map[string]interface{}{}
 		if e := db.Table(tbl).Where("payload = ?", pay).Take(&one).Error; e != nil {
@@ -781,9 +1107,22 @@ func c03RunE2E(r *Result, in c03E2EInput) (bad []string) {
 		} else {
 			mapBy[pay] = append(mapBy[pay], one)
 		}
-		loaded := append(loadedBy[pay], f1.Elem(), f2.Elem())
-		if len(loaded) != 4 {
-			bad = append(bad, fmt.Sprintf("rec %d (%s): %d struct copies loaded, want 4", i, pay, len(loaded)))
+	}
+	if len(bad) > 0 {
+		return bad
+	}
+
+	// ---- judge ----
+	seenPK := map[string]bool{}
+	for i := 0; i < in.N; i++ {
+		o := orig.Index(i)
+		pay := o.Field(payIdx).String()
+		loaded := loadedBy[pay]
+		if len(loaded) != wantCopies {
+			bad = append(bad, fmt.Sprintf("rec %d (%s): %d struct copies loaded, want %d", i, pay, len(loaded), wantCopies))
+			if len(loaded) == 0 {
+				continue
+			}
 		}
 		m := mem.Index(i)
 		pkCanon := ""
@@ -795,7 +1134,7 @@ func c03RunE2E(r *Result, in c03E2EInput) (bad []string) {
 			switch {
 			case f.PK && f.AutoPK:
 				// generated key: in memory (struct creates) it must be the key of the row storing this payload
-				want = f.canon(loaded[0].Field(fi))
+				want = f.canon(loaded[0].v.Field(fi))
 				if !fromMap && (m.Field(fi).IsZero() || inMem != want) {
 					bad = append(bad, fmt.Sprintf("rec %d: in-memory key %s, row holding its payload has key %s", i, inMem, want))
 				}
@@ -803,7 +1142,7 @@ func c03RunE2E(r *Result, in c03E2EInput) (bad []string) {
 					// the map must carry the key of its row (as `column` for maps created through a model)
 					if kv, ok := maps[i][f.Column]; !ok {
 						bad = append(bad, fmt.Sprintf("rec %d: map carries no primary key after Create", i))
-					} else if c03StoredCanon(kv) != c03StoredCanon(loaded[0].Field(fi).Interface()) {
+					} else if c03StoredCanon(kv) != c03StoredCanon(loaded[0].v.Field(fi).Interface()) {
 						bad = append(bad, fmt.Sprintf("rec %d: map key %v, row key %s", i, kv, want))
 					}
 				}
@@ -834,16 +1173,36 @@ func c03RunE2E(r *Result, in c03E2EInput) (bad []string) {
 			if checkMem && inMem != want {
 				bad = append(bad, fmt.Sprintf("rec %d field %s %s{%s}: Create changed the in-memory value %s -> %s", i, f.GoName, f.Atom.Name, f.Tag, want, inMem))
 			}
-			for li, l := range loaded {
-				if got := f.canon(l.Field(fi)); got != want {
-					bad = append(bad, fmt.Sprintf("rec %d field %s %s{%s} read#%d: stored %s loaded %s", i, f.GoName, f.Atom.Name, f.Tag, li, want, got))
+			for _, l := range loaded {
+				lf := reflect.Value{}
+				if l.idx == nil {
+					lf = l.v.Field(fi)
+				} else {
+					for j, sfi := range l.idx {
+						if sfi == fi {
+							lf = l.v.Field(j)
+						}
+					}
+					if !lf.IsValid() {
+						continue
+					}
+				}
+				if got := f.canon(lf); got != want {
+					bad = append(bad, fmt.Sprintf("rec %d field %s %s{%s} read by %s: stored %s loaded %s", i, f.GoName, f.Atom.Name, f.Tag, l.how, want, got))
+				}
+			}
+			if pv, ok := plucked[fi]; ok {
+				if pv.Len() != in.N {
+					bad = append(bad, fmt.Sprintf("Pluck(%q) returned %d values, want %d", f.Column, pv.Len(), in.N))
+				} else if got := f.canon(pv.Index(rank[i])); got != want {
+					bad = append(bad, fmt.Sprintf("rec %d field %s %s{%s} Pluck(%q): stored %s loaded %s", i, f.GoName, f.Atom.Name, f.Tag, f.Column, want, got))
 				}
 			}
 			// map reads: stored representation, only for plainly stored kinds
 			if !f.Atom.NoMap && f.Column != "" && !f.PK {
-				src := l0(loaded).Field(fi).Interface()
+				src := loaded[0].v.Field(fi).Interface()
 				wantM := c03StoredCanon(src)
-				for mi, mrow := range mapBy[pay] {
+				for mi, mrow := range append(append([]map[string]interface{}{}, mapBy[pay]...), mapModelBy[pay]...) {
 					gv, ok := mrow[f.Column]
 					if !ok {
 						bad = append(bad, fmt.Sprintf("rec %d map#%d: column %q missing", i, mi, f.Column))
@@ -859,8 +1218,40 @@ func c03RunE2E(r *Result, in c03E2EInput) (bad []string) {
 			bad = append(bad, fmt.Sprintf("rec %d: duplicate primary key %s", i, pkCanon))
 		}
 		seenPK[pkCanon] = true
-		if len(mapBy[pay]) != 2 {
-			bad = append(bad, fmt.Sprintf("rec %d: %d map copies loaded, want 2", i, len(mapBy[pay])))
+		if len(mapBy[pay]) != 2 || len(mapModelBy[pay]) != modelMaps {
+			bad = append(bad, fmt.Sprintf("rec %d: %d+%d map copies loaded, want 2+%d", i, len(mapBy[pay]), len(mapModelBy[pay]), modelMaps))
+		}
+	}
+	// ---- independence of the loaded copies: overwrite everything reachable from ONE loaded copy (slice elements, map
+	// entries, pointees) and demand that no other loaded copy changes (rows must not share backing arrays / pointees)
+	if len(bad) == 0 {
+		var flat []copyT
+		var keys []string
+		for p := range loadedBy {
+			keys = append(keys, p)
+		}
+		sort.Strings(keys)
+		for _, p := range keys {
+			flat = append(flat, loadedBy[p]...)
+		}
+		before := make([]string, len(flat))
+		for i, c := range flat {
+			before[i] = c03Canon(c.v)
+		}
+		for round := 0; round < 2 && len(flat) > 1 && len(bad) == 0; round++ {
+			victim := prng.Intn(len(flat))
+			c03Scribble(flat[victim].v)
+			for i, c := range flat {
+				if i == victim {
+					before[i] = c03Canon(c.v)
+					continue
+				}
+				if after := c03Canon(c.v); after != before[i] {
+					bad = append(bad, fmt.Sprintf("loaded copies share memory: overwriting the contents of a record read by %s changed a record read by %s: %s -> %s",
+						flat[victim].how, c.how, before[i], after))
+					break
+				}
+			}
 		}
 	}
 	if r != nil {
@@ -873,8 +1264,124 @@ func c03RunE2E(r *Result, in c03E2EInput) (bad []string) {
 			}
 		}
 		r.H("e2e.pk", s.PKStyle)
+		r.H("e2e.naming", s.Naming)
+		r.H("e2e.plucked-columns", fmt.Sprint(minInt(len(plucked), 6)))
 	}
 	return bad
+}
+
+func c03HasSinglePK(s *c03Schema) bool {
+	n := 0
+	for _, f := range s.Fields {
+		if f.PK {
+			n++
+		}
+	}
+	return n == 1
+}
+
+// c03Pluckable: element types database/sql can scan a single column into directly
+func c03Pluckable(t reflect.Type) bool {
+	if t.Kind() == reflect.Ptr { // Pluck scans into a plain *T per element: NULL is not representable there (latitude: not asked)
+		return false
+	}
+	if t.PkgPath() != "" { // defined / struct types (time.Time, sql.Null*, My*): left to the struct reads
+		return false
+	}
+	switch t.Kind() {
+	case reflect.Bool, reflect.Int, reflect.Int8, reflect.Int16, reflect.Int32, reflect.Int64, reflect.Uint, reflect.Uint8, reflect.Uint16,
+		reflect.Uint32, reflect.Uint64, reflect.Float32, reflect.Float64, reflect.String:
+		return true
+	}
+	return false
+}
+
+func c03AllPlain(s *c03Schema) bool {
+	for _, f := range s.Fields {
+		if f.Atom.NoMap || f.Column == "" {
+			return false
+		}
+	}
+	return true
+}
+
+func c03IsRef(k reflect.Kind) bool {
+	return k == reflect.Ptr || k == reflect.Slice || k == reflect.Map || k == reflect.Interface
+}
+
+// c03Scribble overwrites everything REACHABLE THROUGH REFERENCES from v (slice elements, map entries, pointees), not
+// v's own scalar members
+func c03Scribble(v reflect.Value) {
+	switch v.Kind() {
+	case reflect.Ptr:
+		if !v.IsNil() {
+			c03Overwrite(v.Elem())
+		}
+	case reflect.Interface:
+		if !v.IsNil() {
+			if e := v.Elem(); c03IsRef(e.Kind()) {
+				c03Scribble(e)
+			} else if v.CanSet() {
+				tmp := reflect.New(e.Type()).Elem()
+				tmp.Set(e)
+				c03Overwrite(tmp)
+				v.Set(tmp)
+			}
+		}
+	case reflect.Slice:
+		for i := 0; i < v.Len(); i++ {
+			c03Overwrite(v.Index(i))
+		}
+	case reflect.Map:
+		for _, k := range v.MapKeys() {
+			tmp := reflect.New(v.Type().Elem()).Elem()
+			tmp.Set(v.MapIndex(k))
+			c03Overwrite(tmp)
+			v.SetMapIndex(k, tmp)
+		}
+	case reflect.Struct:
+		if v.Type() == timeT {
+			return
+		}
+		for i := 0; i < v.NumField(); i++ {
+			if v.Type().Field(i).IsExported() {
+				c03Scribble(v.Field(i))
+			}
+		}
+	}
+}
+
+// c03Overwrite replaces the scalars stored IN v by values no generator produces and scribbles over what v references
+func c03Overwrite(v reflect.Value) {
+	switch v.Kind() {
+	case reflect.Ptr, reflect.Slice, reflect.Map, reflect.Interface:
+		c03Scribble(v)
+	case reflect.Struct:
+		if v.Type() == timeT {
+			return
+		}
+		for i := 0; i < v.NumField(); i++ {
+			if v.Type().Field(i).IsExported() {
+				c03Overwrite(v.Field(i))
+			}
+		}
+	default:
+		if !v.CanSet() {
+			return
+		}
+		switch v.Kind() {
+		case reflect.Bool:
+			v.SetBool(!v.Bool())
+		case reflect.Int, reflect.Int8, reflect.Int16, reflect.Int32, reflect.Int64:
+			v.SetInt(v.Int() ^ 0x55)
+		case reflect.Uint, reflect.Uint8, reflect.Uint16, reflect.Uint32, reflect.Uint64:
+			v.SetUint(v.Uint() ^ 0x55)
+		case reflect.Float32, reflect.Float64:
+			v.SetFloat(-12345.5)
+		case reflect.String:
+			v.SetString("\x01scribbled:" + v.String())
+		}
+	}
 }
 
 const c03F18 = "F18-C03-returning-slice-of-maps"
@@ -909,7 +1416,7 @@ func c03MapOK(s *c03Schema) bool {
 }
 
 func c03E2ESuite(r *Result, rng *rand.Rand, tier string) {
-	nSchemas := 150
+	nSchemas := 300
 	if tier == "thorough" {
 		nSchemas = 2500
 	}
